@@ -392,8 +392,8 @@ def field_sweep_tasks(tier):
     """Enumeration: every header byte of kind magic/size/flag/page of each sweep file set to
     each value of a list (quick: 16 boundary values; thorough: all 256, palette bytes too)."""
     tasks = []
-    for ci, c in enumerate(minimal_cases()[:11]):
-        kinds = FIELD_KINDS + (("pal",) if tier == "thorough" else ())
+    for ci, c in enumerate(minimal_cases()[:13]):      # incl. the raw VEF and the raw MGE
+        kinds = FIELD_KINDS + (("pal",) if tier == "thorough" and ci < 11 else ())
         offs = [o for o, k in c.smap if k in kinds][:24 if tier == "quick" else 64]
         vals = QUICK_VALUES if tier == "quick" else tuple(range(256))
         per = 4 if len(c.data) > 2000 else 16
